@@ -16,7 +16,7 @@ EXPLANATION = (
     "expansion; fill order of the missing diagonal per layout; (R2) the allocation count is the sum of the seven "
     "documented terms and pdim = |D| = |Dsigns|, nnz_vec = sum of the off-diagonal index vectors for each expansion "
     "map; (R3) the signs written through map.D equal the Dsigns literal; _fill_signs is (+ on x, - on z, Dsigns per "
-    "map); the Hs block is negated before it is written; the regulariser shifts with the sign; (R4) the "
+    "map, placed by a running offset that advances by each map's own pdim); the Hs block is negated before it is written; the regulariser shifts with the sign; (R4) the "
     "regularisation shift and its restore are guarded by the same flag, the restore follows the refactorisation and "
     "iterative refinement reads only the restored copy; (R5) one scaling state per factorisation: nothing between kktsystem.update and the last kktsystem.solve of an iteration writes a field that get_Hs / the sparse update / mul_Hs read; (R6) all four passes select sparse cones with the same test; (R7) KKT mirror discipline: the value array and the LDL engine's permuted copy are written only through the paired helpers (re-run of C08.R5).")
 ASSUMPTIONS = ['rustc MIR construction and trait resolution are correct',
@@ -310,6 +310,55 @@ def sign_pattern(rep, F, tag):
                 if e[0] == 'call':
                     allcalls.add(e[1])
         R.check('Dsigns' in allcalls and 'copy_from_slice' in allcalls, 'fill_signs|maps' + tag, '_fill_signs does not copy the per-map Dsigns', fs.loc())
+        # the per-map sign blocks sit where the KKT assembly puts the extension diagonals: a running offset that starts
+        # at m+n and advances by pdim of the map just written (the maps may have different pdim: SOC 2, GenPow 3)
+        cp = [c for c in fs.calls if c.callee.name == 'copy_from_slice']
+        ok = False
+        why = 'no copy_from_slice'
+        if len(cp) == 1:
+            dst = fs.sym_operand(cp[0].args[0])
+            srcmap = canon(fs.sym_operand(cp[0].args[1]))
+            # find the Range aggregate feeding the destination slice
+            cands = []
+            for bi, si, st in fs.assignments():
+                if st['rv']['k'] == 'agg' and st['rv']['ak']['a'] == 'adt' and last_seg(strip_generics(st['rv']['ak']['adt'])) == 'Range':
+                    ops = [fs.sym_operand(o) for o in st['rv']['ops']]
+                    txt = [canon(o) for o in ops]
+                    if 'pdim(' in txt[1]:
+                        cands.append((ops, txt))
+            if len(cands) == 1:
+                (lo, hi), (tlo, thi) = cands[0]
+                why = 'block range %s..%s' % (tlo, thi)
+                if lo[0] == 'var':
+                    defs = fs.defs.get(lo[1], [])
+                    vals = []
+                    for d in defs:
+                        if d[0] == 's':
+                            vals.append(canon(fs.sym_rvalue(fs.blocks[d[1]]['s'][d[2]]['rv'])).replace('withoverflow', '').replace(').0', ')'))
+                    init = [v for v in vals if v in ('add(arg2, arg3)', 'add(arg3, arg2)')]
+                    step = [v for v in vals if re.fullmatch(r'add\(var:\w+, pdim\(.*\)\)|add\(pdim\(.*\), var:\w+\)', v)]
+                    nthi = thi.replace('withoverflow', '').replace(').0', ')')
+                    marg = None
+                    k0 = nthi.find('pdim(')
+                    if k0 >= 0:
+                        depth, k1 = 0, k0 + len('pdim(')
+                        for k2 in range(k1, len(nthi)):
+                            if nthi[k2] == '(':
+                                depth += 1
+                            elif nthi[k2] == ')':
+                                if depth == 0:
+                                    marg = nthi[k1:k2]
+                                    break
+                                depth -= 1
+                    same_map = marg is not None and ('Dsigns(%s)' % marg) in srcmap and all(('pdim(%s)' % marg) in v for v in step)
+                    ok = len(vals) == 2 and len(init) == 1 and len(step) == 1 and same_map and nthi in (
+                        'add(%s, pdim(%s))' % (tlo, marg), 'add(pdim(%s), %s)' % (marg, tlo))
+                    why += '; offset defined by %s' % vals
+                else:
+                    why += '; the offset is not a running variable'
+        R.check(ok, 'fill_signs|running-offset' + tag,
+                '_fill_signs places the per-map sign block by %s: expected a running offset that starts at m+n and advances by pdim() of the '
+                'map whose Dsigns were just copied (maps of different kinds have different pdim)' % why, fs.loc())
         up = F.one(name='update', adt='DirectLDLKKTSolver')
         gh = one_call(up, 'get_Hs')
         ng = one_call(up, 'negate')
